@@ -141,7 +141,7 @@ def gen_op(rng, P: Pair, comp):
     if comp == "waitpurge":
         r = rng.random()
         if n < 6 and (r < 0.12 or n < 2):
-            return ("reg", rng.randrange(3), rng.choice(ARG))
+            return ("reg", rng.randrange(3), rng.choice(ARG), rng.choice([0, 0, 1]))
         if r < 0.5:
             return status_op()
         if r < 0.7:
@@ -156,13 +156,21 @@ def gen_op(rng, P: Pair, comp):
     if comp == "orch":
         r = rng.random()
         if n < 8 and (r < 0.12 or n == 0):
-            return ("reg", rng.randrange(3), rng.choice(ARG))
+            return ("reg", rng.randrange(3), rng.choice(ARG), rng.choice([0, 0, 1]))
         if r < 0.3:
             return status_op()
         if r < 0.36:
             return ("q_task", rng.randrange(3))
         if r < 0.44:
-            return ("q_existing", 2, rng.choice(ARG), tuple(sorted(rng.sample(STATUSES, rng.randint(0, 3)))))
+            # lookups by one, two or three serialized arguments (all must match)
+            keys = {"k": rng.choice(ARG)}
+            if rng.random() < 0.6:
+                keys["v"] = rng.choice([0, 1])
+            if rng.random() < 0.3:
+                keys["w"] = rng.choice([0, 0, 5])
+            if rng.random() < 0.15:
+                keys.pop("k")
+            return ("q_existing", 2, tuple(sorted(keys.items())), tuple(sorted(rng.sample(STATUSES, rng.randint(0, 3)))))
         if r < 0.5:
             return ("paginate", rng.choice([None, 0, 1, 2]), tuple(sorted(rng.sample(STATUSES, rng.randint(0, 2)))), rng.choice([0, 1, 2, 100]), rng.choice([0, 1, 3]))
         if r < 0.55:
@@ -203,7 +211,7 @@ def gen_op(rng, P: Pair, comp):
     if comp == "state":
         r = rng.random()
         if n < 6 and r < 0.15 or n == 0:
-            return ("reg", rng.randrange(3), rng.choice(ARG))
+            return ("reg", rng.randrange(3), rng.choice(ARG), rng.choice([0, 0, 1]))
         if r < 0.25:
             return ("s_set_result", inv(), rng.choice([1, "r" * 40, None, [1, 2]]))
         if r < 0.35:
@@ -296,7 +304,10 @@ def apply(P: Pair, k, op):
         return P.ids[k][i] if 0 <= i < len(P.ids[k]) else InvocationId(f"unknown-{i}")
     if name == "reg":
         t = P.tasks[k][op[1]]
-        inv = t(op[2]) if op[1] != 1 else t(op[2] if isinstance(op[2], int) else 3, 1)
+        if op[1] == 2 and len(op) > 3:
+            inv = t(op[2], op[3])      # keyed(k, v): a second argument that varies, so that several-argument lookups can match in part
+        else:
+            inv = t(op[2]) if op[1] != 1 else t(op[2] if isinstance(op[2], int) else 3, 1)
         P.ids[k].append(inv.invocation_id)
         return ("ok", len(P.ids[k]) - 1)
     if name == "status":
@@ -305,7 +316,7 @@ def apply(P: Pair, k, op):
         return call(lambda: P.norm(k, set(orch.get_task_invocation_ids(P.tasks[k][op[1]].task_id))))
     if name == "q_existing":
         t = P.tasks[k][2]
-        ser = app.client_data_store.serialize_arguments({"k": op[2]}, ())
+        ser = app.client_data_store.serialize_arguments(dict(op[2]) if isinstance(op[2], tuple) else {"k": op[2]}, ())
         sts = [InvocationStatus[s] for s in op[3]] or None
         return call(lambda: P.norm(k, set(orch.get_existing_invocations(t, ser, sts))))
     if name == "paginate":
